@@ -211,3 +211,23 @@ CHECKS["C11"] = {
         J("linearizable", AGENT, "TestC11Linearizable", {"shards": 8, "checks": 40}, {"shards": 16, "checks": 1500}, toolchain="go126"),
     ],
 }
+
+CHECKS["C12"] = {
+    "level": "exploration",
+    "engine": "E3 agent in-package",
+    "level_text": "Generated stores whose records are written by the reference implementation under 1..4 parameter sets of both algorithms (with auxiliary data, users and admins, any default), "
+                  "login sequences with right and wrong passwords through six frontends (store interface, SASL callback, basic-auth, /api/authenticate, LDAP bind, /api/update with old password), "
+                  "upgrade modes off / local / remote (slave and master agent in one bubble, master reachable or not), policy none or zxcvbn. The agent is brought to idle (synctest.Wait) after every login "
+                  "and the directory is judged against byte/inode/mtime snapshots and an independent recomputation of the rewritten record.",
+    "level_note": "Trusted: refimpl (independent record writer/verifier), zxcvbn-go evaluated by the harness for the policy clause, synctest idle detection. The one-shot CLI path (100 ms grace) is not covered here.",
+    "technique": "property-based testing (rapid) of login sequences on generated mixed-parameter-set stores; snapshot-equality and independent-recomputation oracles under synctest",
+    "oracle": "upgradeable <=> pid != default; off/failed/slave => snapshot identical incl. inode+mtime; local+right+upgradeable+policy ok => record rewritten under the default set for the same password "
+              "(refimpl.Verify), aux/extension unchanged, no temp residue, then not upgradeable; up-to-date or policy-failing => identical; master: untouched or upgraded by the same rule",
+    "rule": "a case = one store + login sequence (1..8 logins). Non-trivial = a right-password login on an upgradeable record that has auxiliary data; distinct = distinct "
+            "(mode, algorithm old>new, frontend, policy outcome, policy configured)",
+    "assumptions": ["remote master is an in-process agent instance reached through a stub RoundTripper"],
+    "required_classes": {"all": ["login:right-password-on-upgradeable-record-with-aux", "upgrade-performed:local", "upgrade-performed:master", "mode:", "mode:remote-unreachable"]},
+    "jobs": [
+        J("upgrades", AGENT, "TestC12Upgrades", {"shards": 8, "checks": 60}, {"shards": 16, "checks": 3000}, toolchain="go126"),
+    ],
+}
